@@ -46,7 +46,8 @@ func TestC19(t *testing.T) {
 		}
 
 		query := func(at int64) sdk.Dec {
-			resp, err := w.App.CfeminterKeeper.Inflation(sdk.WrapSDKContext(ctx.WithBlockTime(nsTime(at))), &mintertypes.QueryInflationRequest{})
+			resp := &mintertypes.QueryInflationResponse{}
+			err := QueryRouted(w.App, ctx.WithBlockTime(nsTime(at)), "/chain4energy.c4echain.cfeminter.Query/Inflation", &mintertypes.QueryInflationRequest{}, resp)
 			if err != nil {
 				t.Fatalf("Inflation query failed: %v", err)
 			}
@@ -251,7 +252,8 @@ func TestC19Rescheduled(t *testing.T) {
 		if _, _, pan := mintBlock(w, ctx, cfg.Denom, t1); pan != nil {
 			t.Fatalf("block after the correction panicked: %v", pan)
 		}
-		resp, err := w.App.CfeminterKeeper.Inflation(sdk.WrapSDKContext(ctx.WithBlockTime(nsTime(t1))), &mintertypes.QueryInflationRequest{})
+		resp := &mintertypes.QueryInflationResponse{}
+		err := QueryRouted(w.App, ctx.WithBlockTime(nsTime(t1)), "/chain4energy.c4echain.cfeminter.Query/Inflation", &mintertypes.QueryInflationRequest{}, resp)
 		if err != nil {
 			t.Fatalf("Inflation query failed: %v", err)
 		}
